@@ -91,8 +91,10 @@ func outputTupleDir(v rel.Value, dir string, fs afero.Fs, dryRun bool) error {
 		return err
 	}
 	if _, err := fs.Stat(dir); os.IsNotExist(err) {
-		if err := fs.Mkdir(dir, 0755); err != nil {
-			return err
+		if !dryRun {
+			if err := fs.Mkdir(dir, 0755); err != nil {
+				return err
+			}
 		}
 	}
 
